@@ -130,10 +130,11 @@ theorem lparse_ref_shape {G : Grammar} {f : Nat} {s : Src} {r i : Nat} {out : Li
       | ok ms0 =>
         rw [hx] at h
         simp only at h
-        split at h
-        · rename_i a _; cases a <;> simp [Abort.toRes] at h
-        · rename_i kept hkept
-          simp only [wrapRule] at h
+        cases hkept : filtOpt (ruleKeep (fun t x => lparse G f t (.ref x) 0) info.excl) ms0 [] with
+        | error a => rw [hkept] at h; cases a <;> simp [ruleFinish, Abort.toRes] at h
+        | ok kept =>
+          rw [hkept] at h
+          simp only [ruleFinish, wrapRule] at h
           split at h
           · simp at h
           · rename_i hne
